@@ -444,27 +444,37 @@ def undef_class(case, a, b):
     return None
 
 
-def fill_vectors(cases, level):
-    thorough = level == "thorough"
-    nrand = 4000 if thorough else 160
-    bcache, ccache, b2cache = {}, {}, {}
+class Vectors:
+    """Operand vectors per case, generated on demand (a thorough run would not fit in memory otherwise)."""
 
-    def bnd(ty):
-        if ty not in bcache:
-            bcache[ty] = _int_boundary(ty, thorough) if ty in INT_INFO else _float_boundary(ty)
-            ccache[ty] = _int_core(ty) if ty in INT_INFO else _float_core(ty)
-            # binary operators: without the float-rounding tie patterns in the quick tier (they matter to casts)
-            b2cache[ty] = bcache[ty] if (thorough or ty not in INT_INFO) else _int_boundary(ty, False, ties=False)
-        return bcache[ty]
+    def __init__(self, level):
+        self.thorough = level == "thorough"
+        self.nrand = 4000 if self.thorough else 160
+        self.unary, self.binary, self.core = {}, {}, {}
 
-    for c in cases:
+    def _prepare(self, ty):
+        if ty in self.unary:
+            return
+        if ty in INT_INFO:
+            self.unary[ty] = _int_boundary(ty, self.thorough)
+            # binary operators: without the float-rounding tie patterns (they matter to casts only)
+            self.binary[ty] = _int_boundary(ty, self.thorough, ties=False)
+            self.core[ty] = _int_core(ty)
+        else:
+            self.unary[ty] = self.binary[ty] = _float_boundary(ty)
+            self.core[ty] = _float_core(ty)
+
+    def fill(self, c):
+        """Sets c.vecs (all vectors) and c.small (those also executed by irsem.Machine)."""
+        thorough, nrand = self.thorough, self.nrand
         ty = c.aty
-        bv = bnd(ty)
-        core = ccache[ty]
+        self._prepare(ty)
+        core = self.core[ty]
         rng = _LCG(_seed(c.label))
         isint = ty in INT_INFO
         rnd = _rand_int if isint else _rand_float
         if c.bty is None:
+            bv = self.unary[ty]
             vecs = [(a, None) for a in bv]
             if c.kind == "cast" and not isint and c.rty in INT_INFO:
                 lo, hi = _irange(c.rty)
@@ -474,11 +484,12 @@ def fill_vectors(cases, level):
                         vecs.append((_to_f32(x) if ty == "f32" else x, None))
                     for x in (float(e), float(e) * (1 + 2.0 ** -23), float(e) * (1 - 2.0 ** -23), float(e) * (1 + 2.0 ** -52), float(e) * (1 - 2.0 ** -52)):
                         vecs.append((_to_f32(x) if ty == "f32" else x, None))
-            vecs += [(rnd(rng, ty, bv), None) for _ in range(nrand * 2)]
+            nb = len(vecs)
+            vecs += [(rnd(rng, ty, bv), None) for _ in range(nrand * 5 if thorough else nrand * 2)]
             c.vecs = vecs
-            c.small = vecs if not thorough else vecs[: len(bv) + 400]
-            continue
-        bv = b2cache[ty]
+            c.small = vecs if not thorough else vecs[: nb + 1000]
+            return
+        bv = self.binary[ty]
         shiftlike = isint and c.op in ("<<", ">>", "rol", "ror")
         if shiftlike:
             bits = INT_INFO[ty][0]
@@ -510,8 +521,7 @@ def fill_vectors(cases, level):
 # gcc side
 
 
-def gcc_eval(cases, tmpdir):
-    """Evaluate every defined vector of every case.  Returns {case.index: [result or None per vector]}."""
+def gcc_build(cases, tmpdir):
     src = os.path.join(tmpdir, "irsem_ops.c")
     exe = os.path.join(tmpdir, "irsem_ops")
     with open(src, "w") as f:
@@ -519,24 +529,28 @@ def gcc_eval(cases, tmpdir):
     p = subprocess.run(["gcc", "-O0", "-fwrapv", "-fno-builtin", "-std=gnu11", "-Wall", "-Wno-unused-function", "-o", exe, src], capture_output=True)
     if p.returncode != 0:
         raise HarnessError("irsem_selfcheck: gcc failed:\n" + p.stderr.decode(errors="replace")[:2000])
+    return exe
+
+
+def gcc_run(exe, c):
+    """Evaluate the defined vectors of one case.  Returns [raw result or None per vector] and the number evaluated."""
     rec = array.array("Q")
     where = []
-    for c in cases:
-        idx = c.index
-        for j, (a, b) in enumerate(c.vecs):
-            if undef_class(c, a, b) is None:
-                rec.append(idx)
-                rec.append(_enc(c.aty, a))
-                rec.append(_enc(c.bty, b) if c.bty else 0)
-                where.append((idx, j))
+    idx = c.index
+    for j, (a, b) in enumerate(c.vecs):
+        if undef_class(c, a, b) is None:
+            rec.append(idx)
+            rec.append(_enc(c.aty, a))
+            rec.append(_enc(c.bty, b) if c.bty else 0)
+            where.append(j)
     p = subprocess.run([exe], input=rec.tobytes(), capture_output=True)
     if p.returncode != 0 or len(p.stdout) != 8 * len(where):
-        raise HarnessError("irsem_selfcheck: operator executable failed (status %s, %d of %d results)" % (p.returncode, len(p.stdout) // 8, len(where)))
+        raise HarnessError("irsem_selfcheck: operator executable failed on %s (status %s, %d of %d results)" % (c.label, p.returncode, len(p.stdout) // 8, len(where)))
     out = array.array("Q")
     out.frombytes(p.stdout)
-    res = {c.index: [None] * len(c.vecs) for c in cases}
-    for (idx, j), raw in zip(where, out):
-        res[idx][j] = raw
+    res = [None] * len(c.vecs)
+    for j, raw in zip(where, out):
+        res[j] = raw
     return res, len(where)
 
 
@@ -618,10 +632,15 @@ def _call_text(case, a, b):
     return "%s on %s" % (case.label, _show(a))
 
 
-def compare_ops(sem, ir, cases, gcc, problems, counts, limit=40):
-    """Compare helpers and Machine with the gcc results (gcc may be None: only the Undef set is checked)."""
+def compare_ops(sem, ir, cases, vectors, exe, problems, counts, limit=40):
+    """Compare helpers and Machine with the gcc results (exe may be None: only the Undef set is checked)."""
     for c in cases:
-        results = gcc[c.index] if gcc is not None else None
+        vectors.fill(c)
+        counts["vectors"] += len(c.vecs)
+        results = None
+        if exe is not None:
+            results, n = gcc_run(exe, c)
+            counts["gcc"] += n
         mach = _CaseMachine(sem, ir, c)
         small = set()
         for a, b in c.small:
@@ -657,7 +676,7 @@ def compare_ops(sem, ir, cases, gcc, problems, counts, limit=40):
                     problems.append("%s: irsem %s gives %s, gcc gives %s" % (_call_text(c, a, b), rname, _show(got), _show(want)))
             if len(problems) >= limit:
                 return
-        # float results of f32 type must be f32 values
+        c.vecs = c.small = None
     # operators outside the menu
     for bits in (32, 64):
         try:
@@ -1020,6 +1039,12 @@ def _t_memory(k):
     k.store(b, k.const(b, 0x4009_21FB_5444_2D18, "u64"), p)
     k.ret(b, k.load(b, p, "f64"))
     k.expect_obs("u64 bits read back as f64", m, "g", [], {"ret": "f:400921fb54442d18"})
+    f, _, (b,) = k.function(m, "c01", [], "f32")
+    k.ret(b, k.const(b, 0.1, "f32"))
+    k.expect_obs("f32 constant 0.1 is rounded to single", m, "c01", [], {"ret": "f:3fb99999a0000000"})
+    f, (x,), (b,) = k.function(m, "widen", [("x", "f32")], "f64")
+    k.ret(b, k.cast(b, x, "f64"))
+    k.expect_obs("f32 argument 0.1 is rounded to single on entry", m, "widen", [0.1], {"ret": "f:3fb99999a0000000"})
     # caller-supplied buffer: observed after the call
     m = k.module("buf")
     f, (p, v), (b,) = k.function(m, "f", [("p", "ptr"), ("v", "i16")], "i32")
@@ -1354,24 +1379,22 @@ def run_all(sem, level="quick", limit=40):
     cases = make_cases()
     check_hand_table(sem, ir, cases, problems, counts)
     nmod, nmodchecks = check_modules(sem, ir, problems)
-    fill_vectors(cases, level)
-    gcc, ncalls = None, 0
-    if shutil.which("gcc"):
-        tmp = tempfile.mkdtemp(prefix="irsem_selfcheck_")
-        try:
-            gcc, ncalls = gcc_eval(cases, tmp)
-        finally:
-            shutil.rmtree(tmp, ignore_errors=True)
-    compare_ops(sem, ir, cases, gcc, problems, counts, limit=limit)
+    vectors = Vectors(level)
+    tmp = tempfile.mkdtemp(prefix="irsem_selfcheck_")
+    try:
+        exe = gcc_build(cases, tmp) if shutil.which("gcc") else None
+        compare_ops(sem, ir, cases, vectors, exe, problems, counts, limit=limit)
+    finally:
+        shutil.rmtree(tmp, ignore_errors=True)
     kinds = collections.Counter(c.kind for c in cases)
     summary = {
         "level": level,
         "ok": not problems,
-        "gcc": gcc is not None,
+        "gcc": exe is not None,
         "operator_cases": len(cases),
         "cases_by_kind": dict(kinds),
-        "operand_vectors": sum(len(c.vecs) for c in cases),
-        "gcc_evaluations": ncalls,
+        "operand_vectors": counts["vectors"],
+        "gcc_evaluations": counts["gcc"],
         "helper_comparisons": counts["helper"],
         "machine_comparisons": counts["Machine"],
         "undefined_checks": {k[6:]: v for k, v in sorted(counts.items()) if k.startswith("undef:")},
